@@ -66,14 +66,70 @@ class ModelModifier:
         params, quantized_model
     )
 
+    signature_io_positions = self._get_signature_io_positions(quantized_model)
     self._transformation_performer.transform_graph(
         instructions, quantized_model
     )
+    self._update_signature_defs(quantized_model, signature_io_positions)
     constant_buffer_size = self._process_constant_map(quantized_model)
     if constant_buffer_size > 2**31 - 2**20:
       return self._serialize_large_model(quantized_model)
     else:
       return self._serialize_small_model(quantized_model)
+
+  def _get_signature_io_positions(
+      self, model: schema_py_generated.ModelT
+  ) -> list[tuple[schema_py_generated.TensorMapT, bool, int, int]]:
+    """Records which subgraph input/output each signature entry refers to.
+
+    Args:
+      model: a TFlite ModelT
+
+    Returns:
+      a list of (signature tensor map, is_output, subgraph index, position in
+      the subgraph inputs/outputs).
+    """
+    positions = []
+    for signature_def in model.signatureDefs or []:
+      subgraph = model.subgraphs[signature_def.subgraphIndex]
+      for tensor_maps, subgraph_io, is_output in (
+          (signature_def.inputs, subgraph.inputs, False),
+          (signature_def.outputs, subgraph.outputs, True),
+      ):
+        subgraph_io = list(subgraph_io)
+        for tensor_map in tensor_maps or []:
+          if tensor_map.tensorIndex in subgraph_io:
+            positions.append((
+                tensor_map,
+                is_output,
+                signature_def.subgraphIndex,
+                subgraph_io.index(tensor_map.tensorIndex),
+            ))
+    return positions
+
+  def _update_signature_defs(
+      self,
+      model: schema_py_generated.ModelT,
+      signature_io_positions: list[
+          tuple[schema_py_generated.TensorMapT, bool, int, int]
+      ],
+  ) -> None:
+    """Points signature entries to the (possibly new) subgraph inputs/outputs.
+
+    Inserting a quantize/dequantize op at a graph output replaces the tensor in
+    subgraph.outputs; the signature must keep referring to the graph output.
+
+    Args:
+      model: a transformed TFlite ModelT
+      signature_io_positions: output of _get_signature_io_positions on the model
+        before the transformation.
+    """
+    for tensor_map, is_output, subgraph_index, position in (
+        signature_io_positions
+    ):
+      subgraph = model.subgraphs[subgraph_index]
+      subgraph_io = subgraph.outputs if is_output else subgraph.inputs
+      tensor_map.tensorIndex = subgraph_io[position]
 
   def _process_constant_map(
       self, quantized_model: schema_py_generated.ModelT
